@@ -592,11 +592,14 @@ out:
 /* ---- case space ------------------------------------------------------ */
 
 #define N_R0 (7 * NSPACING * NFUNC)
+#define NGRIDN 6
 #define N_R1 (5 * 3 * 3 * 2)
 static int n_r2(int tier) { return 8 * 2 * (tier ? 3 : 1); }
-#define N_R3 (5 * NSPACING * 2 * 2 * 4)
-#define N_R4 (5 * NSPACING * 2)
-static const int grid_n[5] = { 1, 2, 3, 5, 7 };
+#define N_R3 (NGRIDN * NSPACING * 2 * 2 * 4)
+#define N_R4 (NGRIDN * NSPACING * 2)
+/* 4 is also the number of calibration frequencies of R3: a grid of the
+   same length and span that is still a different grid */
+static const int grid_n[NGRIDN] = { 1, 2, 3, 4, 5, 7 };
 
 static long count(int tier)
 {
